@@ -92,7 +92,8 @@ def make_world(rng, d):
     store = {}
     for k in range(rng.randrange(0, 3)):
         url = "http://store.example/lib/s%d.json" % k
-        store[url] = {"definitions": {"a": g.keyword_schema("type")}, "type": "object"}
+        # the caller may hand the document over under a spelling with an empty fragment ({doc[id]: doc})
+        store[url + "#" if rng.random() < 0.4 else url] = {"definitions": {"a": g.keyword_schema("type")}, "type": "object"}
         for sp in rng.sample([url, url + "#", url + "#/definitions/a"], 2):
             props["s%d_%d" % (k, len(props))] = {"$ref": sp}
             refs.append(sp)
